@@ -269,7 +269,9 @@ Proof.
       cbn [app]. rewrite <- app_assoc. cbn [app]. apply lex_string.
     - (* url *) cbn [wf_tok] in Hwt. apply andb_true_iff in Hwt as [He Hv]. apply negb_true_iff in He. subst err.
       cbn [ser_token] in Ha. injection Ha as <-. apply leaf_step; auto.
-      change (cps "url("%string) with [117; 114; 108; 40]. rewrite <- !app_assoc. cbn [app].
+      match goal with |- lex_step true ?x = _ =>
+        replace x with ([117; 114; 108; 40] ++ serialize_url v ++ 41 :: (b ++ k))
+          by (cbn [app]; rewrite <- ?app_assoc; reflexivity) end.
       apply (lex_url true v (b ++ k) Hv).
     - (* unicode-range *) cbn [wf_tok] in Hwt. apply andb_true_iff in Hwt as [H1 H2].
       apply leaf_step; auto. apply (lex_urange true p); auto.
@@ -287,7 +289,8 @@ Proof.
       destruct (IH args None (41 :: b ++ k) _ sa ltac:(cbn [tsize] in Hn; unfold lsize; lia) Hwt I Hsa Lc)
         as (oa & La & Ma). { right. eexists _, _. split; reflexivity. }
       exists ([FOpen 40] ++ oa). split.
-      + cbn [app]. rewrite <- app_assoc. cbn [app].
+      + replace ((40 :: sa ++ [41]) ++ b ++ k) with (40 :: sa ++ 41 :: b ++ k)
+          by (cbn [app]; rewrite <- app_assoc; reflexivity).
         eapply lexes_step; eauto; [discriminate|apply lex_open; reflexivity|cbn; lia].
       + cbn [app fl_tok]. cbn [mergews]. f_equal. rewrite Ma. rewrite <- app_assoc. reflexivity.
     - (* [ ] *) rewrite wf_square in Hwt. cbn [ser_token] in Ha. apply bind_ok in Ha as (sa & Hsa & Ha). injection Ha as <-.
@@ -296,7 +299,8 @@ Proof.
       destruct (IH args None (93 :: b ++ k) _ sa ltac:(cbn [tsize] in Hn; unfold lsize; lia) Hwt I Hsa Lc)
         as (oa & La & Ma). { right. eexists _, _. split; reflexivity. }
       exists ([FOpen 91] ++ oa). split.
-      + cbn [app]. rewrite <- app_assoc. cbn [app].
+      + replace ((91 :: sa ++ [93]) ++ b ++ k) with (91 :: sa ++ 93 :: b ++ k)
+          by (cbn [app]; rewrite <- app_assoc; reflexivity).
         eapply lexes_step; eauto; [discriminate|apply lex_open; reflexivity|cbn; lia].
       + cbn [app fl_tok]. cbn [mergews]. f_equal. rewrite Ma. rewrite <- app_assoc. reflexivity.
     - (* { } *) rewrite wf_curly in Hwt. cbn [ser_token] in Ha. apply bind_ok in Ha as (sa & Hsa & Ha). injection Ha as <-.
@@ -305,7 +309,8 @@ Proof.
       destruct (IH args None (125 :: b ++ k) _ sa ltac:(cbn [tsize] in Hn; unfold lsize; lia) Hwt I Hsa Lc)
         as (oa & La & Ma). { right. eexists _, _. split; reflexivity. }
       exists ([FOpen 123] ++ oa). split.
-      + cbn [app]. rewrite <- app_assoc. cbn [app].
+      + replace ((123 :: sa ++ [125]) ++ b ++ k) with (123 :: sa ++ 125 :: b ++ k)
+          by (cbn [app]; rewrite <- app_assoc; reflexivity).
         eapply lexes_step; eauto; [discriminate|apply lex_open; reflexivity|cbn; lia].
       + cbn [app fl_tok]. cbn [mergews]. f_equal. rewrite Ma. rewrite <- app_assoc. reflexivity.
     - (* function *)
@@ -318,19 +323,20 @@ Proof.
       destruct (IH args None (41 :: b ++ k) _ sa ltac:(cbn [tsize] in Hn; unfold lsize; lia) Hwa I Hsa Lc)
         as (oa & La & Ma). { right. eexists _, _. split; reflexivity. }
       exists ([FFun name] ++ oa). split.
-      + rewrite <- !app_assoc. cbn [app]. rewrite <- !app_assoc. cbn [app].
+      + replace ((sn ++ 40 :: sa ++ [41]) ++ b ++ k) with (sn ++ 40 :: sa ++ 41 :: b ++ k)
+          by (rewrite <- !app_assoc; cbn [app]; rewrite <- !app_assoc; reflexivity).
         eapply lexes_step; eauto.
         * destruct (ident_head _ _ Hsn) as (c1 & r1 & -> & _). discriminate.
         * apply lex_function_open; auto. intros Hu. rewrite Hu in Hurl. cbn [negb orb] in Hurl.
           apply (url_args_head args sa); auto.
-        * rewrite !app_length. cbn [length]. lia.
+        * repeat (rewrite ?app_length; cbn [length]). lia.
       + cbn [app fl_tok]. cbn [mergews]. f_equal. rewrite Ma. rewrite <- app_assoc. reflexivity. }
   destruct Htok as (o_t & Lt & Mt).
   (* the separator *)
   exists o_t. split.
   - rewrite <- !app_assoc.
     destruct (separator_cases prev t r Hp) as [-> | ->]; [exact Lt|].
-    eapply (lexes_one _ [] (a ++ b ++ k)); eauto.
+    apply (lexes_one _ [] (a ++ b ++ k) o_t o_t); auto.
     + discriminate.
     + apply lex_separator.
     + cbn [app length]. lia.
